@@ -12,6 +12,7 @@ import hashlib
 import json
 import multiprocessing
 import os
+import signal
 import sys
 import time
 import traceback
@@ -39,6 +40,35 @@ class HarnessError(Exception):
     pass
 
 
+class Hang(KeyboardInterrupt):
+    """Raised by the watchdog inside whatever is running. A KeyboardInterrupt subclass: the checks' `except Exception` must not
+    eat it, and Hypothesis passes KeyboardInterrupt straight through instead of replaying the example (and hanging again)."""
+
+
+HANG_LIMIT = float(os.environ.get('PV_HANG_LIMIT', '45'))     # seconds without a finished case; typical cases take milliseconds
+
+
+def _on_alarm(signum, frame):
+    raise Hang()
+
+
+def arm_watchdog(seconds=None):
+    signal.signal(signal.SIGALRM, _on_alarm)
+    signal.setitimer(signal.ITIMER_REAL, HANG_LIMIT if seconds is None else seconds)
+
+
+def disarm_watchdog():
+    signal.setitimer(signal.ITIMER_REAL, 0)
+
+
+def hang_where(tb_text):
+    where = ''
+    for line in tb_text.splitlines():
+        if '/pyasn1/' in line and 'File "' in line:
+            where = line.split('/pyasn1/', 1)[1].replace('", line ', ':').replace(', in ', ':')
+    return where
+
+
 class Collector(object):
     MAX_SAMPLES = 5
     MAX_PER_BUCKET = 6
@@ -57,11 +87,24 @@ class Collector(object):
         self.notes = []
         self.deadline = None
         self.attribute = None       # failure dict -> listed finding id or None (set by the harness)
+        self.current = None         # the case being run (set by begin()), for the watchdog
+        self.last_sample = None
+        self.watch = False
 
     # ---- recording
+    def begin(self, case):
+        """Announce the case about to run: a hang is then reported with a replayable case."""
+        self.current = case
+        if self.watch:
+            arm_watchdog()
+
     def case(self, key, nontrivial=True, features=(), sample=None, n=1):
         """One executed case. key: any jsonable identifying the case (hashed for distinctness)."""
         self.evaluations += n
+        if self.watch:
+            arm_watchdog()          # every recorded case re-arms the watchdog
+        if sample is not None:
+            self.last_sample = sample
         if nontrivial:
             h = hashlib.blake2b(key if isinstance(key, bytes) else jdump(key).encode(), digest_size=8).digest()
             self.nontrivial.add(h)
@@ -146,11 +189,26 @@ def _shard_entry(args):
         col = Collector()
         col.deadline = time.time() + budget if budget else None
         col.attribute = make_attributor(mod)
-        mod.run_shard(desc, seed, tier, col)
+        col.watch = True
+        arm_watchdog()
+        try:
+            mod.run_shard(desc, seed, tier, col)
+        except Hang:
+            # the library did not come back: a violation of whatever the check was looking at (termination is part of
+            # every property that speaks of an outcome), reported with the case announced by begin() or the last sample
+            tb = traceback.format_exc()
+            disarm_watchdog()
+            case = col.current if col.current is not None else {'hang_after': to_jsonable(col.last_sample)}
+            col.fail('watchdog', 'hang', 'no case finished within %d s; the library was in %s' % (HANG_LIMIT, hang_where(tb) or '?'),
+                     case, sig=hang_where(tb).split(':')[0])
+            col.notes.append('shard stopped by the watchdog')
+        disarm_watchdog()
         col.deadline = None
         col.attribute = None
+        col.current = col.last_sample = None
         return ('ok', col)
     except BaseException:
+        disarm_watchdog()
         return ('err', traceback.format_exc())
 
 
@@ -249,7 +307,17 @@ def _main(mod, prop, args):
     if args.replay:
         with open(args.replay) as f:
             rec = json.load(f)
-        fails = mod.replay(from_jsonable(rec['case']) if not getattr(mod, 'RAW_CASES', False) else rec['case'])
+        if isinstance(rec['case'], dict) and 'hang_after' in rec['case']:
+            print('replay: this record only names the last case that finished before a hang; it cannot be re-run')
+            print('VIOLATION property=%s replay=%s' % (prop, args.replay))
+            return 1
+        arm_watchdog(2 * HANG_LIMIT)
+        try:
+            fails = mod.replay(from_jsonable(rec['case']) if not getattr(mod, 'RAW_CASES', False) else rec['case'])
+        except Hang:
+            fails = [{'sub': 'watchdog', 'kind': 'hang', 'msg': 'the case does not finish within %d s (%s)' % (
+                2 * HANG_LIMIT, hang_where(traceback.format_exc()))}]
+        disarm_watchdog()
         if fails:
             for fl in fails[:5]:
                 print('replay: %s | %s | %s' % (fl['sub'], fl['kind'], fl['msg']))
